@@ -7,6 +7,7 @@ import (
 	"os"
 	"path"
 	"path/filepath"
+	"sort"
 	"strings"
 
 	"github.com/getkin/kin-openapi/openapi3"
@@ -91,8 +92,14 @@ func (g Generator) Generate(openapi3Spec *openapi3.Swagger, outDir string, packa
 	if basePath == "" && len(openapi3Spec.Servers) > 0 {
 		s := openapi3Spec.Servers[0]
 		rawURL := s.URL
-		for k, v := range s.Variables {
-			if def, ok := v.Default.(string); ok {
+		// substitute in a fixed order: a default may itself contain "{name}"
+		varNames := make([]string, 0, len(s.Variables))
+		for k := range s.Variables {
+			varNames = append(varNames, k)
+		}
+		sort.Strings(varNames)
+		for _, k := range varNames {
+			if def, ok := s.Variables[k].Default.(string); ok {
 				rawURL = strings.ReplaceAll(rawURL, "{"+k+"}", def)
 			}
 		}
